@@ -22,6 +22,27 @@ TAIL_WIDTHS = [65, 96, 127, 128, 200, 512]
 
 def clog2(n): return max(1, (n - 1).bit_length())
 
+def dims_of(n):
+  """list dimensions: None -> [], 3 -> [3], (2, 3) -> [2, 3]"""
+  return [] if n is None else ([n] if isinstance(n, int) else list(n))
+
+def all_indices(dims):
+  import itertools
+  return list(itertools.product(*[range(d) for d in dims]))
+
+def idx_text(ix): return ''.join(f'[{i}]' for i in ix)
+
+def list_ctor(elem, dims):
+  """python text of a (nested) list comprehension building a list of `elem` with the given dimensions"""
+  t = elem
+  for d in reversed(dims): t = f'[ {t} for _ in range({d}) ]'
+  return t
+
+def numel(n):
+  k = 1
+  for d in dims_of(n): k *= d
+  return k
+
 class Struct:
   def __init__(self, name, fields):
     self.name, self.fields = name, fields            # fields: [(fname, ftype)], ftype: ('b', w) | ('l', n, w) | ('s', Struct)
@@ -33,13 +54,16 @@ class Struct:
     out = ['@bitstruct', f'class {self.name}:']
     for f, t in self.fields:
       if t[0] == 'b': out.append(f'  {f}: Bits{t[1]}')
-      elif t[0] == 'l': out.append(f'  {f}: [Bits{t[2]}]*{t[1]}')
+      elif t[0] == 'l':
+        ty = f'Bits{t[2]}'
+        for d in reversed(dims_of(t[1])): ty = f'[{ty}]*{d}'
+        out.append(f'  {f}: {ty}')
       else: out.append(f'  {f}: {t[1].name}')
     return out
 
 def ftype_width(t):
   if t[0] == 'b': return t[1]
-  if t[0] == 'l': return t[1] * t[2]
+  if t[0] == 'l': return numel(t[1]) * t[2]
   return t[1].width
 
 class Sig:
@@ -67,13 +91,14 @@ class Scope:
     return c
 
 def add_readable(scope, path, T, n=None, dyn=True):
-  """register everything readable below a signal path of data type T (list length n)"""
-  if n is not None:
+  """register everything readable below a signal path of data type T (list dimensions n)"""
+  dims = dims_of(n)
+  if dims:
     if T[0] == 'b':
-      scope.arrays.append((path, n, T[1]))
-      for i in range(n): scope.refs.append(Ref(f'{path}[{i}]', T[1], 'elem'))
+      for pre in all_indices(dims[:-1]): scope.arrays.append((path + idx_text(pre), dims[-1], T[1]))
+      for ix in all_indices(dims): scope.refs.append(Ref(path + idx_text(ix), T[1], 'elem'))
     else:
-      for i in range(n): add_readable(scope, f'{path}[{i}]', T)
+      for ix in all_indices(dims): add_readable(scope, path + idx_text(ix), T)
     return
   if T[0] == 'b':
     r = Ref(path, T[1], 'sig')
@@ -82,9 +107,7 @@ def add_readable(scope, path, T, n=None, dyn=True):
   else:
     for f, t in T[1].fields:
       if t[0] == 'b': add_readable(scope, f'{path}.{f}', t)
-      elif t[0] == 'l':
-        scope.arrays.append((f'{path}.{f}', t[1], t[2]))
-        for i in range(t[1]): scope.refs.append(Ref(f'{path}.{f}[{i}]', t[2], 'elem'))
+      elif t[0] == 'l': add_readable(scope, f'{path}.{f}', ('b', t[2]), t[1])
       else: add_readable(scope, f'{path}.{f}', ('s', t[1]))
 
 class ExprGen:
@@ -283,7 +306,7 @@ class DesignGen:
       r = rng.random()
       fname = 'abcdefg'[k] + rng.choice(['', 'x', '_f'])
       if flat_only or r < 0.6: fields.append((fname, ('b', rng.choice([1, 2, 3, 4, 8, 5]))))
-      elif r < 0.8: fields.append((fname, ('l', rng.choice([2, 4]), rng.choice([1, 2, 4]))))
+      elif r < 0.8: fields.append((fname, ('l', rng.choice([2, 4, 2, (2, 3), (3, 2), (2, 2)]), rng.choice([1, 2, 4]))))
       else:
         inner = [s for s in self.structs if s.flat]
         if inner and rng.random() < 0.7: fields.append((fname, ('s', rng.choice(inner))))
@@ -314,7 +337,8 @@ class DesignGen:
         st = self.pick_struct(flat_only=yos and not is_top)   # yosys: a child's struct input is in output direction for the parent
         ins.append(Sig(f'in{i}', 'in', ('s', st))); self.features.add('struct-in')
       elif r < 0.18 * 2 * struct_p + 0.12:
-        ins.append(Sig(f'in{i}', 'in', ('b', rng.choice([2, 4, 8, 8])), n=rng.choice([2, 3, 4]))); self.features.add('port-array-in')
+        nn = rng.choice([2, 3, 4, 2, (2, 3), (3, 2)])
+        ins.append(Sig(f'in{i}', 'in', ('b', rng.choice([2, 4, 8, 8])), n=nn)); self.features.add('port-array-in' + ('-2d' if not isinstance(nn, int) else ''))
       else:
         nm = 'i' if (i == 0 and rng.random() < 0.06) else f'in{i}'      # a port named like the loop variable
         if nm == 'i': self.features.add('signal-named-like-loopvar')
@@ -327,33 +351,37 @@ class DesignGen:
         st = self.pick_struct(flat_only=yos)         # yosys clean stream: flat structs in output direction
         outs.append(Sig(f'out{i}', 'out', ('s', st))); self.features.add('struct-out')
       elif r < 0.16 * 2 * struct_p + 0.10:
-        outs.append(Sig(f'out{i}', 'out', ('b', rng.choice([2, 4, 8])), n=rng.choice([2, 3, 4]))); self.features.add('port-array-out')
+        nn = rng.choice([2, 3, 4, 2, (2, 3), (3, 2)])
+        outs.append(Sig(f'out{i}', 'out', ('b', rng.choice([2, 4, 8])), n=nn)); self.features.add('port-array-out' + ('-2d' if not isinstance(nn, int) else ''))
       else:
         outs.append(Sig(f'out{i}', 'out', ('b', c.W())))
+    # a struct input re-read as its packed bit vector (`s.o @= s.p`): the whole-port form of the flat port map
+    for sin in [x for x in ins if x.T[0] == 's' and x.n is None]:
+      if rng.random() < 0.5:
+        o = Sig(f'pk_{sin.name}', 'out', ('b', sin.T[1].width)); o.direct = sin.path
+        outs.append(o); self.features.add('struct-as-bits')
     for i in range(rng.randint(0, 3)):
       r = rng.random()
       if r < 0.12 and not yos:                       # struct wires: verilog only (yosys: finding F10c)
         wires.append(Sig(f'w{i}', 'wire', ('s', self.pick_struct()))); self.features.add('struct-wire')
       elif r < 0.24:
-        wires.append(Sig(f'w{i}', 'wire', ('b', rng.choice([2, 4, 8])), n=rng.choice([2, 4]))); self.features.add('wire-array')
+        nn = rng.choice([2, 4, 2, (2, 3), (2, 2)])
+        wires.append(Sig(f'w{i}', 'wire', ('b', rng.choice([2, 4, 8])), n=nn)); self.features.add('wire-array' + ('-2d' if not isinstance(nn, int) else ''))
       else:
         wires.append(Sig(f'w{i}', 'wire', ('b', c.W())))
     # ---- interfaces (top-level or not): ports with mangled names
     if rng.random() < self.opts.get('ifc', 0.25):
-      n = rng.choice([None, None, 2])
+      n = rng.choice([None, None, 2, (2, 3) if self.be == 'verilog' else 2])      # yosys: 2-D interface lists are finding F20
       W = rng.choice([4, 8])
       iname = 'ifc'
       c.ifcs.append((iname, W, n))
-      self.features.add('interface' + ('-array' if n else ''))
-      if n is None:
-        ins.append(Sig('ifc_msg', 'in', ('b', W), path=f's.{iname}.msg'))
-        ins.append(Sig('ifc_val', 'in', ('b', 1), path=f's.{iname}.val'))
-        outs.append(Sig('ifc_rdy', 'out', ('b', 1), path=f's.{iname}.rdy'))
-      else:
-        for k in range(n):
-          ins.append(Sig(f'ifc{k}_msg', 'in', ('b', W), path=f's.{iname}[{k}].msg'))
-          ins.append(Sig(f'ifc{k}_val', 'in', ('b', 1), path=f's.{iname}[{k}].val'))
-          outs.append(Sig(f'ifc{k}_rdy', 'out', ('b', 1), path=f's.{iname}[{k}].rdy'))
+      self.features.add('interface' + ('' if n is None else '-array' if isinstance(n, int) else '-array-2d'))
+      for ix in ([()] if n is None else all_indices(dims_of(n))):
+        tag = ''.join(str(k) for k in ix)
+        pre = f's.{iname}{idx_text(ix)}'
+        ins.append(Sig(f'ifc{tag}_msg', 'in', ('b', W), path=f'{pre}.msg'))
+        ins.append(Sig(f'ifc{tag}_val', 'in', ('b', 1), path=f'{pre}.val'))
+        outs.append(Sig(f'ifc{tag}_rdy', 'out', ('b', 1), path=f'{pre}.rdy'))
     c.ins, c.outs, c.wires = ins, outs, wires
     c.sigs = ins + outs + wires
     # ---- declarations
@@ -363,11 +391,10 @@ class DesignGen:
       ctor = {'in': 'InPort', 'out': 'OutPort', 'wire': 'Wire'}[s.kind]
       ty = f'Bits{s.T[1]}' if s.T[0] == 'b' else s.T[1].name
       if s.n is None: d.append(f'    s.{s.name} = {ctor}( {ty} )')
-      else: d.append(f'    s.{s.name} = [ {ctor}( {ty} ) for _ in range({s.n}) ]')
+      else: d.append(f'    s.{s.name} = {list_ctor(f"{ctor}( {ty} )", dims_of(s.n))}')
     for (iname, W, n) in c.ifcs:
       self.ifc_classes['GIfc'] = True
-      if n is None: d.append(f'    s.{iname} = GIfc( Bits{W} )')
-      else: d.append(f'    s.{iname} = [ GIfc( Bits{W} ) for _ in range({n}) ]')
+      d.append(f"    s.{iname} = {list_ctor(f'GIfc( Bits{W} )', dims_of(n))}")
     # ---- constants
     consts = []
     if rng.random() < 0.6:
@@ -403,16 +430,21 @@ class DesignGen:
       n = None
       # a list of identical sub-components (struct-free in yosys: finding F10d)
       has_struct_in = any(s.T[0] == 's' for s in ch.ins)
-      if rng.random() < 0.25 and not (yos and has_struct_in) and not ch.ifcs: n = 2; self.features.add('comp-array')
+      has_2d_port = any(len(dims_of(x.n)) > 1 for x in ch.ins + ch.outs)      # verilog: finding F21
+      if rng.random() < 0.25 and not (yos and has_struct_in) and not ch.ifcs and not (not yos and has_2d_port):
+        n = rng.choice([2, 2, 2, (2, 2) if not yos else 2, (2, 3) if not yos else 2])      # yosys: 2-D lists of sub-components are finding F20
+        self.features.add('comp-array' + ('' if isinstance(n, int) else '-2d'))
       c.children.append((f'c{k}', ch, n))
       def inst():
         return f'{ch.name}( {rng.randint(0, 7)} )' if ch.params else f'{ch.name}()'
+      def nested(dims):
+        if not dims: return inst()
+        return '[ ' + ', '.join(nested(dims[1:]) for _ in range(dims[0])) + ' ]'
       if n is None: c.decl.append(f'    s.c{k} = {inst()}')
       elif ch.params and rng.random() < 0.7:
-        c.decl.append(f"    s.c{k} = [ {', '.join(inst() for _ in range(n))} ]"); self.features.add('comp-array-different-params')
+        c.decl.append(f'    s.c{k} = {nested(dims_of(n))}'); self.features.add('comp-array-different-params')
       else:
-        one = inst()
-        c.decl.append(f'    s.c{k} = [ {one} for _ in range({n}) ]')
+        c.decl.append(f'    s.c{k} = {list_ctor(inst(), dims_of(n))}')
       self.features.add(f'child-level{c.level + 1}')
     # availability
     scope = Scope()
@@ -435,14 +467,14 @@ class DesignGen:
     drivable = [s for s in c.outs + c.wires]
     regs = []
     for s in drivable:
-      if s.T[0] == 'b' and rng.random() < self.opts.get('reg', 0.3): regs.append(s)
+      if s.T[0] == 'b' and not hasattr(s, 'direct') and rng.random() < self.opts.get('reg', 0.3): regs.append(s)
     for s in regs: add_readable(scope, s.path, s.T, s.n)
     # targets in driving order: own comb signals and child inputs; child outputs become readable once
     # every input of the child is driven
     items = [('sig', s) for s in drivable if s not in regs]
     for (iname, ch, n) in c.children:
-      for idx in ([None] if n is None else list(range(n))):
-        pre = f's.{iname}' if idx is None else f's.{iname}[{idx}]'
+      for idx in ([None] if n is None else all_indices(dims_of(n))):
+        pre = f's.{iname}' if idx is None else f's.{iname}{idx_text(idx)}'
         for s in ch.ins:
           items.append(('cin', Sig(s.name, 'wire', s.T, s.n, path=pre + s.path[1:]), (iname, idx)))
     rng.shuffle(items)
@@ -451,7 +483,7 @@ class DesignGen:
     for it in items:
       if it[0] == 'cin': pending[it[2]] = pending.get(it[2], 0) + 1
     for (iname, ch, n) in c.children:
-      for idx in ([None] if n is None else list(range(n))):
+      for idx in ([None] if n is None else all_indices(dims_of(n))):
         if (iname, idx) not in pending:               # child without inputs: outputs readable at once
           self.child_outputs(scope, iname, idx, ch)
     blocks = []
@@ -460,7 +492,10 @@ class DesignGen:
       s = it[1]
       mode = rng.random()
       connectable = s.T[0] == 'b' or True
-      if mode < 0.22 and connectable:
+      if hasattr(s, 'direct'):
+        nm = self.blk_name(c, 'up')
+        c.lines += ['    @update', f'    def {nm}():', f'      {s.path} @= {s.direct}']
+      elif mode < 0.22 and connectable:
         self.emit_connection(c, scope, s)
       else:
         if cur is None or len(cur) >= rng.randint(1, 3):
@@ -490,7 +525,7 @@ class DesignGen:
     pass
 
   def child_outputs(self, scope, iname, idx, ch):
-    pre = f's.{iname}' if idx is None else f's.{iname}[{idx}]'
+    pre = f's.{iname}' if idx is None else f's.{iname}{idx_text(idx)}'
     for s in ch.outs:
       add_readable(scope, pre + s.path[1:], s.T, s.n)
 
@@ -498,24 +533,37 @@ class DesignGen:
   def emit_connection(self, c, scope, s):
     """drive s by `//=` from something readable of the same type (falls back to a block)"""
     rng = self.rng
+    if s.n is not None and s.T[0] == 'b':
+      # every element of the (nested) list is a structural connection end point
+      for ix in all_indices(dims_of(s.n)):
+        self.connect_scalar(c, scope, s.path + idx_text(ix), s.T[1], allow_lambda=False)
+      self.features.add('connect-list-elements' + ('-2d' if len(dims_of(s.n)) > 1 else ''))
+      return
     if s.n is not None or s.T[0] == 's':
-      # whole struct / per-element connections from a same-typed readable path
+      # whole struct connection from a same-typed readable path
       if s.T[0] == 's' and s.n is None:
         cands = [x for x in self.struct_paths(c, scope, s.T[1])]
         if cands:
           c.lines.append(f'    {s.path} //= {rng.choice(cands)}'); self.features.add('connect-struct'); return
       self.render_comb_target(c, scope, self.new_block(c), s); return
-    w = s.T[1]
+    if not self.connect_scalar(c, scope, s.path, s.T[1]):
+      self.render_comb_target(c, scope, self.new_block(c), s)
+
+  def connect_scalar(self, c, scope, path, w, allow_lambda=True):
+    """drive the Bits signal `path` by one `//=` (always succeeds when allow_lambda is False)"""
+    rng = self.rng
+    class _S: pass
+    s = _S(); s.path = path
     r = rng.random()
-    if r < 0.22:
+    if r < 0.22 and allow_lambda:
       eg = ExprGen(rng, scope.copy(), self.opts)
       txt = eg.nc(w, 2)[0]
       if 's.' in txt:          # a lambda that does not mention the component has no closure to find `s` in
-        c.lines.append(f'    {s.path} //= lambda: {txt}'); self.features.add('lambda'); return
+        c.lines.append(f'    {s.path} //= lambda: {txt}'); self.features.add('lambda'); return True
     r = rng.random()
     same = [x for x in scope.refs if x.w == w and x.kind in ('sig', 'elem') and x.sliceable]
     wider = [x for x in scope.refs if x.w > w and x.kind in ('sig', 'elem') and x.sliceable]
-    if r < 0.15:
+    if r < 0.15 or (not same and not wider and not allow_lambda):
       c.lines.append(f'    {s.path} //= {rng.getrandbits(w)}'); self.features.add('connect-const')
     elif r < 0.6 and same:
       c.lines.append(f'    {s.path} //= {rng.choice(same).text}'); self.features.add('connect')
@@ -534,8 +582,16 @@ class DesignGen:
         c.lines.append(f'    {s.path}[{k}:{w}] //= {tb}'); self.features.add('connect-to-slices')
       else:
         c.lines.append(f'    {s.path} //= {rng.choice(same).text}')
+    elif same:
+      c.lines.append(f'    {s.path} //= {rng.choice(same).text}'); self.features.add('connect')
+    elif wider:
+      x = rng.choice(wider)
+      c.lines.append(f'    {s.path} //= {x.text}[0:{w}]'); self.features.add('connect-slice')
+    elif allow_lambda:
+      return False
     else:
-      self.render_comb_target(c, scope, self.new_block(c), s)
+      c.lines.append(f'    {s.path} //= {rng.getrandbits(w)}'); self.features.add('connect-const')
+    return True
 
   def struct_paths(self, c, scope, st):
     out = []
@@ -600,18 +656,22 @@ class DesignGen:
       return out + self.assign_struct(c, scope, s, op, eg)
     w = s.T[1]
     if s.n is not None:
-      # list of signals: loop or element-wise
+      # (nested) list of signals: (nested) loop or element-wise
+      dims = dims_of(s.n)
       if rng.random() < 0.6:
-        v = 'i'
-        sc2 = scope.copy(); sc2.loopvars.append((v, s.n - 1))
+        vs = ['i', 'j'][:len(dims)]
+        sc2 = scope.copy()
+        for v, d in zip(vs, dims): sc2.loopvars.append((v, d - 1))
         eg2 = ExprGen(rng, sc2, self.opts)
         e, _ = eg2.expr(w, depth - 1)
-        out.append(f'for {v} in range({s.n}):')
-        out.append(f'  {s.path}[{v}] {op} {e}')
-        self.features.add('for-array')
+        ind = ''
+        for v, d in zip(vs, dims):
+          out.append(f'{ind}for {v} in range({d}):'); ind += '  '
+        out.append(f"{ind}{s.path}{''.join(f'[{v}]' for v in vs)} {op} {e}")
+        self.features.add('for-array' + ('-2d' if len(dims) > 1 else ''))
       else:
-        for k in range(s.n):
-          out += self.assign_scalar(f'{s.path}[{k}]', w, op, eg, depth)
+        for ix in all_indices(dims):
+          out += self.assign_scalar(f'{s.path}{idx_text(ix)}', w, op, eg, depth)
       return out
     return out + self.assign_scalar(s.path, w, op, eg, depth)
 
@@ -665,7 +725,14 @@ class DesignGen:
     for tgt in targets:
       same = [p for p in self.struct_paths(c, scope, st)]
       by_field = (self.be == 'verilog' and rng.random() < 0.45) or not st.flat
-      if same and rng.random() < 0.3:
+      if st.flat and self.be == 'verilog' and rng.random() < 0.12:
+        # a bitstruct constant of the component (the yosys backend rejects reading it: KeyError in the translator)
+        self.uid += 1
+        cn = f'CS{self.uid}'
+        vals = ', '.join(str(rng.getrandbits(t[1])) for _, t in st.fields)
+        c.decl.append(f'    s.{cn} = {st.name}( {vals} )')
+        out.append(f'{tgt} {op} s.{cn}'); self.features.add('struct-const')
+      elif same and rng.random() < 0.3:
         out.append(f'{tgt} {op} {rng.choice(same)}'); self.features.add('struct-copy')
       elif st.flat and not by_field:
         args = ', '.join(value_of(t) for _, t in st.fields)
@@ -680,7 +747,7 @@ class DesignGen:
     for f, t in st.fields:
       if t[0] == 'b': out.append(f'{tgt}.{f} {op} {eg.expr(t[1], 2)[0]}')
       elif t[0] == 'l':
-        for k in range(t[1]): out.append(f'{tgt}.{f}[{k}] {op} {eg.expr(t[2], 1)[0]}')
+        for ix in all_indices(dims_of(t[1])): out.append(f'{tgt}.{f}{idx_text(ix)} {op} {eg.expr(t[2], 1)[0]}')
       else: out += self.assign_fields(f'{tgt}.{f}', t[1], op, eg)
     return out
 
@@ -725,11 +792,15 @@ F17 = 'F17-negative-step-loop-wraps'
 F18 = 'F18-loop-variable-shadows-signal'
 F19 = 'F19-yosys-trunc-unmangled'
 F7 = 'F7-same-class-name-different-bodies'
+F20 = 'F20-yosys-2d-list-of-interfaces-or-subcomponents-transposed'
+F21 = 'F21-verilog-2d-port-list-of-listed-subcomponent'
 
 FINDING_STREAMS = {
   # id -> (backends, expected violation kinds)
   F10: (('yosys',), ('multi-driver', 'undriven', 'output-mismatch')),
   F17: (('verilog',), ('loop-overrun', 'output-mismatch')),
+  F20: (('yosys',), ('multi-driver', 'undriven', 'output-mismatch', 'syntax-invalid')),
+  F21: (('verilog',), ('multi-driver', 'undriven', 'output-mismatch', 'syntax-invalid')),
 }
 FIXED_STREAMS = {
   # shapes of repaired defects: ordinary clean cases now
@@ -831,6 +902,32 @@ def gen_finding(rng, be, fid):
             'class Top( Component ):', '  def construct( s ):', f'    s.ifc = [ GIfc( Bits{W} ) for _ in range(2) ]', f'    s.o = OutPort( Bits{w} )',
             '    @update', '    def up():', f'      s.o @= trunc( s.ifc[{rng.randint(0, 1)}].msg, {w} )',
             '      s.ifc[0].rdy @= s.ifc[0].val', '      s.ifc[1].rdy @= s.ifc[1].val']
+  elif fid == F20:
+    variant = rng.choice(['interface', 'subcomponent'])
+    a, b = rng.choice([(2, 3), (3, 2), (2, 4)])
+    if variant == 'interface':
+      L += ['class GIfc( Interface ):', '  def construct( s, T ):', '    s.msg = InPort( T )', '    s.val = InPort()', '    s.rdy = OutPort()', '',
+            'class Top( Component ):', '  def construct( s ):', f'    s.ifc = [ [ GIfc( Bits{w} ) for _ in range({b}) ] for _ in range({a}) ]',
+            f'    s.o = OutPort( Bits{w} )', '    @update', '    def up():',
+            f'      s.o @= s.ifc[{a - 1}][{b - 1}].msg {rng.choice("^+&")} s.ifc[0][{b - 1}].msg',
+            f'      for i in range({a}):', f'        for j in range({b}):', '          s.ifc[i][j].rdy @= s.ifc[i][j].val']
+    else:
+      L += ['class Sub( Component ):', '  def construct( s, k ):', f'    s.in_ = InPort( Bits{max(w, 3)} )', f'    s.out = OutPort( Bits{max(w, 3)} )',
+            '    @update', '    def sb():', '      s.out @= s.in_ + k', '',
+            'class Top( Component ):', '  def construct( s ):', f'    s.a = [ [ InPort( Bits{max(w, 3)} ) for _ in range({b}) ] for _ in range({a}) ]',
+            f'    s.o = [ [ OutPort( Bits{max(w, 3)} ) for _ in range({b}) ] for _ in range({a}) ]',
+            f'    s.c = [ [ Sub( i * {b} + j ) for j in range({b}) ] for i in range({a}) ]',
+            f'    for i in range({a}):', f'      for j in range({b}):', '        s.c[i][j].in_ //= s.a[i][j]', '        s.o[i][j] //= s.c[i][j].out']
+  elif fid == F21:
+    a, b = rng.choice([(2, 3), (3, 2)])
+    i0, j0 = rng.randrange(a), rng.randrange(b)
+    while i0 == 1 and j0 == min(b - 1, 1) and False: pass
+    L += ['class Sub( Component ):', '  def construct( s ):', f'    s.in0 = [ [ InPort( Bits{w} ) for _ in range({b}) ] for _ in range({a}) ]',
+          f'    s.out = OutPort( Bits{w} )', '    @update', '    def sb():', f'      s.out @= s.in0[{i0}][{j0}]', '',
+          'class Top( Component ):', '  def construct( s ):', f'    s.x = InPort( Bits{w} )', f'    s.o = [ OutPort( Bits{w} ) for _ in range(2) ]',
+          '    s.c = [ Sub(), Sub() ]', f'    for i in range({a}):', f'      for j in range({b}):', '        s.c[0].in0[i][j] //= 0',
+          '    @update', '    def up():', f'      for i in range({a}):', f'        for j in range({b}):', '          s.c[1].in0[i][j] @= s.x',
+          '    s.o[0] //= s.c[0].out', '    s.o[1] //= s.c[1].out']
   elif fid == F7:
     k = rng.sample(range(1, 1 << max(w, 2)), 2)
     w = max(w, 2)
